@@ -872,13 +872,14 @@ pub fn run(prop: &str, tier: &str) -> i32 {
         }
     }
     if !thorough {
+        // all ordered pairs (seed S55 needs two non-convex operands in general position)
         sweep_table(
             &st,
             prop,
             &p_spec(9, seed, 1.0, false),
             Ft::F64,
             &want,
-            PairSet::WithTriangle,
+            PairSet::All,
         );
     }
     sweep_table(
@@ -924,6 +925,8 @@ pub fn run(prop: &str, tier: &str) -> i32 {
         );
     }
     sweep_table(&st, prop, &spike_spec(seed), Ft::F64, &want, PairSet::WithTriangle);
+    // a second table in general position with different shapes (integer coordinates up to 2^24; seed S55)
+    sweep_table(&st, prop, &pi_spec(), Ft::F64, &want, PairSet::WithTriangle);
     sweep_table(&st, prop, &l_spec("L2i"), Ft::F64, &want, PairSet::All);
     sweep_table(&st, prop, &l_spec("L2s"), Ft::F64, &want, PairSet::All);
     // all 516 lattice triangles over {0..3}^2: 266 256 ordered pairs; about 0.04 % of the calls fail on the
